@@ -134,6 +134,31 @@ class RichGen:
                 body.append(("enable", l, ("cmp", r.choice([">", "<", "=="]), x, ("int", r.choice([0, 2, 10])))))
         self.scope = saved
         self.funcs.append((fname, params))
+        # known finding S36: a Signal parameter bound to an int argument and compared inside a && / || chain
+        # makes the compiler raise (a constant lands in a row of a multi-condition decider): such parameters
+        # are always given signal arguments
+        chain = set()
+
+        def walk(e, inside):
+            if not isinstance(e, tuple):
+                return
+            if e[0] in ("and", "or"):
+                for x in e[1:]:
+                    walk(x, True)
+                return
+            if e[0] == "cmp" and inside:
+                for x in e[2:]:
+                    if isinstance(x, tuple) and x[0] == "ref":
+                        chain.add(x[1])
+            for x in e[1:]:
+                walk(x, False if e[0] != "cond" else False)
+
+        for s_ in body:
+            for x in s_[2:]:
+                walk(x, False)
+        walk(ret, False)
+        self.chain_params = getattr(self, "chain_params", {})
+        self.chain_params[fname] = chain
         return ("func", fname, params, body, ret)
 
     def call(self):
@@ -146,6 +171,8 @@ class RichGen:
             elif i == 0:
                 # the first argument is never constant, so that a call never folds to a compound
                 # constant (region of known finding S14)
+                args.append(self.sig_expr(1))
+            elif params[i][1] in getattr(self, "chain_params", {}).get(fname, ()):
                 args.append(self.sig_expr(1))
             else:
                 args.append(self.sig_expr(1) if r.random() < 0.6 else ("int", r.choice([1, 2, 7])))
